@@ -268,8 +268,18 @@ fn kdf_case(g: &mut Gen, ctx: &mut Ctx) -> CaseResult {
         let w = e.protected.wire.clone().unwrap_or_default();
         let v = SuppPubInfo::from_slice(&bytes).map_err(|er| format!("valid SuppPubInfo rejected: {:?} {}", er, hex_trunc(&bytes, 200)))?;
         ensure!(v.protected.original_data.as_ref() == Some(&w), "SuppPubInfo: retained bytes {:?} differ from the wire {}", v.protected.original_data.as_ref().map(|b| hex_trunc(b, 60)), hex_trunc(&w, 60));
-        let out = v.to_vec().map_err(|e| format!("{:?}", e))?;
+        let out = v.clone().to_vec().map_err(|e| format!("{:?}", e))?;
         ensure!(elem(&out, 1)? == w, "SuppPubInfo re-encoded with different protected bytes");
+        // the decoded value handed to the KDF-context builder keeps its bytes in the built context
+        let built = coset::CoseKdfContextBuilder::new().supp_pub_info(v.clone()).build();
+        let bout = built.to_vec().map_err(|e| format!("built KDF context fails to encode: {:?}", e))?;
+        let r = read_strict(&bout).map_err(|e| format!("{:?}", e))?;
+        let supp = r.as_array().and_then(|a| a.get(3)).and_then(|s| s.as_array()).ok_or("no supp pub info in the built context")?;
+        ensure!(supp.get(1).and_then(|p| p.as_bytes()) == Some(&w), "a decoded SuppPubInfo passed through CoseKdfContextBuilder::supp_pub_info is written with protected bytes {} instead of the received {}", diag(&supp[1]), hex_trunc(&w, 60));
+        // ... and so does a decoded recipient's protected header placed in a SuppPubInfo literal
+        let lit = SuppPubInfo { key_data_length: 128, protected: v.protected.clone(), other: None };
+        let lout = lit.to_vec().map_err(|e| format!("{:?}", e))?;
+        ensure!(elem(&lout, 1)? == w, "SuppPubInfo literal holding a decoded protected header re-encodes it");
         ctx.class("kind:SuppPubInfo");
         ctx.nontrivial(hash_str(&crate::cbor::hex(&bytes)));
         ctx.sample_with(|| format!("SuppPubInfo {} ; protected {}", hex_trunc(&bytes, 48), hex_trunc(&w, 32)));
